@@ -27,6 +27,47 @@ TRUSTED = ['Box contents are excluded by can_be_represented_in_state', 'C15 for 
 GO = 'gym_gridverse/grid_object.py'
 
 
+def registry_append_only(index: RepoIndex, rep, rule: str, eff=None) -> None:
+    """type_index is the position of the class in the registry, so that list may only ever
+    grow at its end: `register` appends its argument and nothing else, no other method of the
+    registry class modifies the list (a `names()` that sorts in place renumbers every type
+    after the first conversion), and no function of the package writes the module-level
+    registry other than by calling `register`"""
+    from ..effects import Effects
+    eff = eff or Effects(index)
+    cls = index.cls(GO, 'GridObjectRegistry')
+    for mname, m in sorted(cls.methods.items()):
+        sm = eff.summ.get(m.qualname)
+        if sm is None:
+            raise AnalysisError(f'no effect summary for {m.short}')
+        me = m.node.args.args[0].arg if m.node.args.args else 'self'
+        sites = sm.mut_sites.get(me, [])
+        if mname == 'register':
+            p = m.node.args.args[1].arg if len(m.node.args.args) > 1 else ''
+            ok = len(sites) == 1 and sites[0][1].replace(' ', '') in (
+                f'{me}.data.append({p})', f'{me}.append({p})')
+            rep.check(ok, rule, GO, m.short, m.node.lineno, '; '.join(t for _, t in sites),
+                      'register does more to the registry than append the new type at the end '
+                      '(the type indices of the registered types would move)',
+                      'register appends')
+        else:
+            rep.check(me not in sm.mut_params, rule, GO, m.short, m.node.lineno,
+                      '; '.join(t for _, t in sites)[:120] or m.short,
+                      f'{m.short} modifies the registry ({"; ".join(t for _, t in sites)[:80]}): '
+                      f'type_index is the position in that list, so every later conversion '
+                      f'numbers the types differently than the earlier ones',
+                      f'{m.short} leaves the registry alone')
+    for q, sm in sorted(eff.summ.items()):
+        if 'grid_object_registry' in sm.global_writes:
+            bad = [t for _, t in sm.global_sites if 'grid_object_registry' in t
+                   and '.register(' not in t]
+            f_ = eff.funcs[q]
+            rep.check(not bad, rule, f_.module.relpath, f_.short, f_.node.lineno,
+                      '; '.join(bad)[:120] or f_.short,
+                      f'{f_.short} rewrites the grid-object registry ({"; ".join(bad)[:80]})',
+                      f'{f_.short} registry writes')
+
+
 def run(index: RepoIndex, rep) -> None:
     rep.rule('C16.R1', 'default encoding = the three fields GridObject equality compares',
              floor=2)
@@ -89,6 +130,8 @@ def run(index: RepoIndex, rep) -> None:
               GO, 'GridObject.type_index', ti.node.lineno, src(b[-1]),
               'type_index is not the position of the class in the registry (stable, unique)',
               'type index from registry')
+
+    registry_append_only(index, rep, 'C16.R1')
 
     # ---- R2 keys
     for rel, fn, need in ((STATE, 'make_state_representation',
